@@ -259,6 +259,16 @@ fn c18_value_tuples() {
     assert!(swapped != t);
     let one = ValueTuple::One(Value::Int(opt()));
     assert!(one != t);
+    // the same members held by another shape (Many built from a Vec against Two): whatever equality says, equal tuples must hash equally
+    let a: Option<i32> = opt();
+    let b: Option<f64> = opt();
+    let two = ValueTuple::Two(Value::Int(a), Value::Double(b));
+    let many = ValueTuple::Many(vec![Value::Int(a), Value::Double(b)]);
+    if two == many {
+        assert!(Rec::of(&two).same(&Rec::of(&many)));
+    }
+    assert!((two == many) == (many == two));
+    std::mem::forget((two, many));
     kani::cover!(tu, "equal tuples reachable");
     kani::cover!(!tu, "unequal tuples reachable");
     std::mem::forget((t, u, swapped, one));
